@@ -21,8 +21,8 @@ import traceback
 VERIF_DIR = os.path.dirname(os.path.dirname(os.path.abspath(__file__)))
 PY = sys.executable
 WORK_DIR = os.path.join(VERIF_DIR, ".work")
-REPLAY_DIR = os.path.join(VERIF_DIR, "replays")
-EVIDENCE_DIR = os.path.join(VERIF_DIR, "evidence")
+REPLAY_DIR = os.environ.get("VERIF_REPLAY_DIR") or os.path.join(VERIF_DIR, "replays")
+EVIDENCE_DIR = os.environ.get("VERIF_EVIDENCE_DIR") or os.path.join(VERIF_DIR, "evidence")
 KNOWN_FILE = os.path.join(VERIF_DIR, "known_findings.json")
 
 N_WORKERS = int(os.environ.get("VERIF_WORKERS", "16"))
@@ -210,6 +210,8 @@ def worker_main(argv):
                                       "orig_len": mod.scenario_len(scen), "min_len": mod.scenario_len(mscen),
                                       "attribution": extra}) + "\n")
                 out.flush()
+                if os.environ.get("VERIF_STOP_ON_FIRST"):
+                    break
         out.write(json.dumps({"type": "aggregate", "n_done": n_done, "agg": mod.finish_aggregate(agg)}) + "\n")
     except Exception:
         out.write(json.dumps({"type": "harness_error", "what": "worker exception", "tb": traceback.format_exc()}) + "\n")
@@ -381,7 +383,7 @@ def check_main(prop: str, tier: str, runs_override=None) -> int:
     new_violations = []
     known_hits = {}
     violations.sort(key=lambda r: r["index"])
-    confirm_cap = 12
+    confirm_cap = 2 if os.environ.get("VERIF_STOP_ON_FIRST") else 12
     for rec in violations:
         kid = match_known(known, prop, rec)
         if kid is not None:
